@@ -15,6 +15,8 @@
    neighbours, the empty key and reversed ranges. *)
 From Coq Require Import NArith List Lia.
 From Mtbl Require Import model.Bytes model.Order spec.Parse model.Reader proofs.OrderProofs proofs.BlockProofs proofs.LookupProofs proofs.ReaderProofs.
+(* source ties: the statements of the C functions the model follows (gen/Ties.v is regenerated from /repo on every run) *)
+From Mtbl Require props.Ties_C02.
 Local Open Scope N_scope.
 
 Theorem T02_lookups : forall decompress r ib iridx nb B Rr,
